@@ -193,6 +193,8 @@ pub struct StepRec {
     pub ev: Vec<EvRec>,
     /// [key id, estimate the sketch gives for that id's key right after the step] for the ids named in admission events
     pub truth: Vec<Vec<i64>>,
+    /// reset only: the frequency profile installed before the run, [key, accesses] in installation order
+    pub freq: Vec<Vec<i64>>,
     pub pc: BTreeMap<String, String>,
     pub s: StateRec,
     /// reset only
